@@ -37,6 +37,8 @@ struct Shared {
     thread_req: HashMap<std::thread::ThreadId, String>,
     events: Vec<String>,
     active: bool,
+    /// after the schedule: pause points no longer block
+    passthrough: bool,
     changes: u64,
 }
 
@@ -77,7 +79,7 @@ fn hook(point: &str, id: &str) {
     }
     g.waiting.insert(req.clone(), point.to_string());
     c.cv.notify_all();
-    while g.active && !g.granted.remove(&(req.clone(), point.to_string())) {
+    while g.active && !g.passthrough && !g.granted.remove(&(req.clone(), point.to_string())) {
         g = c.cv.wait(g).unwrap();
     }
     g.waiting.remove(&req);
@@ -188,47 +190,54 @@ pub fn run_schedule(notes: usize, acts: &[Act]) -> Outcome2 {
         match a {
             Act::Send(m) => send(m),
             Act::Advance(id) => {
+                // event-based: the worker reaches its next pause point on its own (short wait: a worker
+                // queued behind a pending notification is not started yet, the advance is then a no-op)
+                wait_for(|g| g.waiting.contains_key(&id.to_string()), Duration::from_millis(250));
                 grant(*id);
             }
         }
         settle(quiet, max);
     }
-    // drain: let every remaining worker run to the end (workers queued behind a pending notification
-    // start only after the earlier ones are gone), until every sent request has finished
+    // drain: from here on no pause point blocks; wait (event-based, generous deadline: the machine may be
+    // loaded) until every request of the schedule has finished
     let sent_reqs = acts.iter().filter(|a| matches!(a, Act::Send(Msg::Req { .. }))).count();
-    let drain_start = Instant::now();
-    loop {
-        let (waiting, finished): (Vec<String>, usize) = {
-            let g = ctl().m.lock().unwrap();
-            (g.waiting.keys().cloned().collect(), g.events.iter().filter(|e| e.starts_with("finishing:")).count())
-        };
-        if finished >= sent_reqs || drain_start.elapsed() > Duration::from_secs(3) {
-            break;
-        }
-        for w in waiting {
-            if let Ok(id) = w.parse::<u32>() {
-                grant(id);
-            }
-        }
-        settle(Duration::from_millis(1), Duration::from_millis(50));
+    {
+        let c = ctl();
+        let mut g = c.m.lock().unwrap();
+        g.passthrough = true;
+        g.changes += 1;
+        c.cv.notify_all();
     }
-    settle(quiet, max);
+    let drained = wait_for(|g| g.events.iter().filter(|e| e.starts_with("finishing:")).count() >= sent_reqs, Duration::from_secs(60));
+    // read the final text of every note, waiting for the answers themselves
+    let mut inbox: Vec<Message> = vec![];
     let mut finals = vec![];
     for n in 0..notes {
         let id = 900_000 + n as u32;
         send(&Msg::Req { id, note: n, outcome: Outcome::Ok });
-        for _ in 0..3 {
-            wait_for(|g| g.waiting.contains_key(&id.to_string()), Duration::from_millis(500));
-            grant(id);
-            settle(Duration::from_millis(2), max);
+        let deadline = Instant::now() + Duration::from_secs(if drained { 60 } else { 5 });
+        loop {
+            match from_server.recv_timeout(deadline.saturating_duration_since(Instant::now())) {
+                Ok(m) => {
+                    let done = matches!(&m, Message::Response(r) if format!("{}", r.id) == id.to_string());
+                    inbox.push(m);
+                    if done {
+                        break;
+                    }
+                }
+                Err(_) => break,
+            }
         }
     }
     to_server.send(Message::Notification(Notification { method: "exit".to_string(), params: json!(null) })).unwrap();
     let loop_result_ok = handle.join().unwrap_or(false);
+    while let Ok(m) = from_server.try_recv() {
+        inbox.push(m);
+    }
     let mut replies: HashMap<u32, Option<u32>> = HashMap::new();
     let mut duplicate_replies = vec![];
     let mut final_map: HashMap<u32, Option<u32>> = HashMap::new();
-    while let Ok(m) = from_server.try_recv() {
+    for m in inbox {
         if let Message::Response(r) = m {
             let id: u32 = format!("{}", r.id).parse().unwrap_or(0);
             let ver = r.result.as_ref().and_then(|v| v.get(0)).and_then(|e| e.get("newText")).and_then(|t| t.as_str()).and_then(version_of);
